@@ -1171,6 +1171,19 @@ def b_crop_helpers(S):
     return out
 
 
+def b_dedupe(S):
+    """`filter_non_unique_traces`: the key of a trace is its WKT at `int(-log10(snap))` decimals (a parameter of type K); the first trace with
+    a key is kept, later ones with the same key are dropped, order preserved"""
+    C = {"traces.geometry.values": "traces", "set()": "[]", "dumps(geom, rounding_precision=int(-math.log10(snap_threshold)))": "(key geom)",
+         "traces.iloc[idxs_to_keep]": "(List.filterMap (fun i => traces[i]?) idxs_to_keep)"}
+    T = {"traces.geometry.values": "List G", "set()": "List K", "traces_set": "List K", "idxs_to_keep": "List Nat",
+         "dumps(geom, rounding_precision=int(-math.log10(snap_threshold)))": "K", "geom_wkt": "K", "traces.iloc[idxs_to_keep]": "List G", "unique_traces": "List G",
+         "filter_count": "Nat"}
+    return translate_function(
+        S[BAN], "filter_non_unique_traces", "filter_non_unique_traces", {"traces": "List G"}, "List G", C, types=T,
+        extra_params=[("{G}", "Type"), ("{K}", "Type"), ("[BEq K]", ""), ("key", "G → K")], slice_from="traces_set = set()", default_num="Nat", join="tuple", nat_sub=True)
+
+
 def b_determine_intersect(S):
     """`determine_intersect`: which ordered pair of sets an X/Y node between two sets is recorded under, or ValueError"""
     fn = find_func(ast.parse(S[REL]), "determine_intersect")
@@ -1809,6 +1822,7 @@ ITEMS: List[Item] = [
     Item("SnapConstants", BAN, ["C01", "C03", "C06", "C16"], b_snap_constants),
     Item("SnapInsert", BAN, ["C06"], b_snap_insert),
     Item("InsertPoint", BAN, ["C06", "C04", "C01"], b_insert_point),
+    Item("Dedupe", BAN, ["C04", "C01"], b_dedupe),
     Item("BranchesAndNodes", BAN, ["C01", "C14", "C04", "C03"], b_branches_and_nodes),
     Item("SimpleSnap", BAN, ["C06", "C01"], b_simple_snap),
     Item("SnapStage", BAN, ["C06", "C01"], b_snap_stage, deps=["SnapInsert"]),
